@@ -71,6 +71,22 @@ def run(tier, seed, replay):
     v.coverage["replay_graphs"].append({"relay": "batched uplink (sendmmsg) with Stop", "distinct": gb.distinct, "edges": len(graphb.edges), "paths": len(pathsb), "uncovered_edges": leftb})
     nm, sm, dm = nm + nb, sm + sb, max(dm, db)
     n1, s1, d1 = n1 + nm, s1 + sm, max(d1, dm)
+    # (2a') a client whose session owns something (SOCKS5 client: the TCP control connection of its UDP association, towards a
+    #       harness SOCKS5 server), and the session's own socket failing after that client session exists (descriptor
+    #       limit as the fault): whatever the lifecycle does, the client session must be closed in the end
+    nf_, sf_, df_ = 0, 0, 0
+    for upb, fvars in (("FALSE", [{"server": "socks5", "batchMode": "no", "natTimeout": "30s", "client": "socks5"}, {"server": "ss2022", "batchMode": "no", "natTimeout": "61s", "client": "socks5"}]),
+                       ("TRUE", [{"server": "socks5", "batchMode": "sendmmsg", "natTimeout": "30s", "client": "socks5"}])):
+        gf, _ = udprelay.model(dict(Sess='{"s1"}', Targets='{"ip","rej"}', Domains="{}", MaxSend=2, ChanCap=2, MaxReply=0, MaxTimer=0, MaxFault=1 if not big else 2, UpBatch=upb),
+                               props=False, edges=True)
+        # (the SOCKS5 client dials with the manager's context: the initialisation's outcome is taken right after the packet,
+        #  before Stop can cancel that context under it)
+        graphf = udprelay.urgent_filter(vlib.Graph(gf), also=lambda a: a["n"] in ("InitOk", "InitFail"))
+        pathsf, leftf = graphf.cover(seed=seed, max_len=40, max_paths=None if big else 80, prefer=lambda e: e[1].get("at") == "socket" or e[1].get("out") == "aborted")
+        a_, b_, c_ = udprelay.replay(v, binary, [graphf.behaviour(p) for p in pathsf], fvars, seed, "client-session lifecycle replay")
+        nf_, sf_, df_ = nf_ + a_, sf_ + b_, max(df_, c_)
+        v.coverage["replay_graphs"].append({"relay": "SOCKS5 client session, socket faults, UpBatch=" + upb, "distinct": gf.distinct, "edges": len(graphf.edges), "paths": len(pathsf), "uncovered_edges": leftf})
+    n1, s1, d1 = n1 + nf_, s1 + sf_, max(d1, df_)
     # (2b) session relay (Shadowsocks 2022 server; minimum NAT timeout 61 s): lifecycle and Stop
     gs, _ = udprelay.model(dict(Sess='{"s1"}', Targets='{"ip","rej"}', Domains="{}", MaxSend=1, ChanCap=1, MaxReply=1, MaxTimer=0, Keyed='"sid"'), props=False, edges=True)
     graphs = udprelay.urgent_filter(vlib.Graph(gs), drop=("Move", "Forged"))
